@@ -76,7 +76,12 @@ def deeprec_family(rng):
     return [("deeprec_w%d" % w, """
 func rec(%s) -> int { a0 <= 0 ? (%s) : 1 + rec(%s) }
 func main(n : int) -> int { rec(%s) %% 100003 }
-""" % (ps, summ, call, init), dict(depth=True, width=w))]
+""" % (ps, summ, call, init), dict(depth=True, width=w)),
+    # deep and wide frames that pass EXISTING values on: stack demand grows with the depth, heap demand hardly at all
+    ("widerec_w8", """
+func wide(%s, h : int, n : int) -> int { n <= 0 ? a0 + h : 1 + wide(%s, h, n - 1) }
+func main(n : int) -> int { wide(%s, 4, n) }
+""" % (", ".join("a%d : int" % i for i in range(8)), ", ".join("a%d" % max(0, i - 1) for i in range(8)), ", ".join(str(3 + i) for i in range(8))), dict(depth=True, wide=True, width=8))]
 
 def alloc_family(rng):
     out = []
